@@ -25,6 +25,10 @@ def suite_c02(r, n):
     import sys as _sys
     mprogs = matrix_progs() if (RERUN.get("seed", 0) % 1000 == 0 or "-matrix" in _sys.argv) else []
     for p in mprogs: matrix_jobs(r, p, jobs, meta)
+    # ILL-FORMED values: two fixed programs (std, slim) in which a union sits in every kind of position, in
+    # every job; plus, below, random injection into the random programs' values
+    bprogs = [build_badunion(200, False), build_badunion(201, True)]
+    for p in bprogs: badunion_jobs(r, p, jobs, meta)
     for p in progs:
         keys = list(p.structs)
         if not keys: continue
@@ -50,6 +54,15 @@ def suite_c02(r, n):
             sname, gotype, st = "%s/%s" % key, "%s/%s" % key, Ty("S", file=key[0], name=key[1])
             v = gen_struct(r, p, key)
             c = r.intn(10)
+            inj = inject_bad_union(r, p, st, v) if r.chance(25) else None
+            if inj is not None:
+                # ill-formed at depth: one union somewhere below the top level has 0 or 2 fields set — Write must
+                # return an error (emitted recorder and the three real protocols)
+                bv, where = inj
+                op = "w" if r.chance(60) else "p"
+                jobs.append((op, "p%d" % p.pid, gotype, sname, dump_val(bv)))
+                meta.append((op, p, st, bv, "bad-nested:" + where, "g2%s %s %s %s" % (op, defs, sname, dump_val(bv))))
+                continue
             if c < 4:       # write
                 variant = "valid"
                 if kind == "u" and fields and r.chance(30):
@@ -93,7 +106,7 @@ def suite_c02(r, n):
                     if dump_val(vs) != dump_val(v): v, variant = ve, "valid+defaulted-unlisted"
                 jobs.append(("p", "p%d" % p.pid, gotype, sname, dump_val(vs)))
                 meta.append(("p", p, st, v, variant, "g2p %s %s %s" % (defs, sname, dump_val(vs))))
-    res, err = build_and_run(mprogs + progs, jobs)
+    res, err = build_and_run(mprogs + bprogs + progs, jobs)
     if res is None:
         OracleFail("valid IDL was not compiled to Go that builds (C02 needs the generated code)", {"op": "build", "detail": err[:3000]})
         Stat("evaluations"); Finish(); return
@@ -107,7 +120,12 @@ def suite_c02(r, n):
         Sample({"line": line[:600], "real": real[:300]})
         # ---- the property oracle, from Thrift's rules, independent of the Lean model
         bad = None
-        if op == "w":
+        if variant.startswith("bad-nested:"):
+            Stat("bad-nested-cases")
+            parts = [real] if op == "w" else [x.split("=", 1)[1] for x in real.split(" ")[1:]] if real.startswith("ok ") else [real]
+            if not parts or not all(x.startswith("err:") or x.startswith("write-err:") for x in parts):
+                bad = "generated Write accepted a value in which a nested union does not have exactly one field set (%s)" % variant[11:]
+        elif op == "w":
             if variant.startswith("valid"):
                 want = "ok " + tree(p, st, v)
                 if real != want: bad = "generated Write does not produce the declared encoding (field ids, wire types, values, presence)"
@@ -268,6 +286,63 @@ def matrix_jobs(r, p, jobs, meta):
                 add("r", ve, "conforming+defaulted-omitted", vs=vs); add("w", ve, "valid+defaulted-unlisted", vs=vs); add("p", ve, "valid+defaulted-unlisted", vs=vs)
     if pos == "r":
         for _ in range(4): add("r", vals[1], "missing-required", drop=r.pick(fields)[0])
+
+
+# ------------------------------------------------------------------ the fixed ill-formed-value programs
+def build_badunion(pid, slim):
+    """a union in every kind of position: field of a struct (default requiredness / optional / required), two
+    levels down, element of a list, value of a map, field of an exception, field of a union, argument and result
+    (success / declared exception) of a service method."""
+    p = Prog(pid)
+    f = "bu%dmain" % pid
+    p.files = [f]; p.includes = {f: []}; p.order = {f: []}
+    p.genopts = "slim" if slim else ""
+    p.args_ctors = True
+    p.badunion = True
+    S = lambda n: Ty("S", file=f, name=n)
+    def add(kind, n, fields): p.structs[(f, n)] = (kind, fields); p.order[f].append(("r", n))
+    add("u", "UnB", [(1, "o", "ua1", Ty("i")), (2, "o", "ub2", Ty("s"))])
+    add("s", "StHold", [(1, "d", "hu1", S("UnB")), (2, "d", "hs2", Ty("i"))])
+    add("s", "StDeep", [(1, "d", "dh1", S("StHold")), (2, "d", "dl2", Ty("L", S("UnB"))), (3, "d", "dm3", Ty("M", Ty("s"), S("UnB"))),
+                        (4, "o", "do4", S("UnB")), (5, "r", "dr5", S("UnB")), (6, "d", "dz6", Ty("i")), (7, "d", "dll7", Ty("L", Ty("L", S("StHold"))))])
+    add("x", "ExB", [(1, "d", "xu1", S("UnB")), (2, "d", "xm2", Ty("s"))])
+    add("u", "UnOut", [(1, "o", "oi1", S("UnB")), (2, "o", "ox2", Ty("i")), (3, "o", "ol3", Ty("L", S("UnB")))])
+    p.services[(f, "SvB")] = {"extends": None, "methods": [{"name": "pick", "oneway": False, "args": [(1, "a", S("UnB")), (2, "t", Ty("i"))],
+                                                            "ret": S("UnB"), "throws": [(1, "e", S("ExB"))]}]}
+    p.order[f].append(("v", "SvB"))
+    return p
+
+def badunion_jobs(r, p, jobs, meta):
+    f = p.files[-1]
+    defs = p.defs_code()
+    S = lambda n: Ty("S", file=f, name=n)
+    u1 = lambda: ("(", {1: ("n", r.intn(100))}) if r.chance(50) else ("(", {2: ("q", b"x")})
+    hold = lambda: ("(", {1: u1(), 2: ("n", 3)})
+    deep = ("(", {1: hold(), 2: ("[", [u1(), u1()]), 3: ("{", [(("q", b"k"), u1()), (("q", b"l"), u1())]), 4: u1(), 5: u1(), 6: ("n", 9),
+                  7: ("[", [("[", [hold()]), ("[", [hold(), hold()])])})
+    # (go type / defs key, field table of the synthetic structs comes from defs_code)
+    args_t, res_t = "%s/SvB_pick_args" % f, "%s/SvB_pick_result" % f
+    p.structs_synth = {args_t: [(1, "d", "a", S("UnB")), (2, "d", "t", Ty("i"))], res_t: [(0, "o", "success", S("UnB")), (1, "o", "e", S("ExB"))]}
+    tops = [("%s/StHold" % f, S("StHold"), hold()), ("%s/StDeep" % f, S("StDeep"), deep), ("%s/ExB" % f, S("ExB"), ("(", {1: u1(), 2: ("q", b"m")})),
+            ("%s/UnOut" % f, S("UnOut"), ("(", {1: u1()})), ("%s/UnOut" % f, S("UnOut"), ("(", {3: ("[", [u1(), u1()])}))]
+    def emit(op, sname, st, v, variant):
+        jobs.append((op, "p%d" % p.pid, sname, sname, dump_val(v)))
+        meta.append((op, p, st, v, variant, "g2%s %s %s %s" % (op, defs, sname, dump_val(v))))
+    for sname, st, v in tops:
+        emit("w", sname, st, v, "valid"); emit("p", sname, st, v, "valid")          # the well-formed twin passes
+        for (pa, key) in union_positions(p, st, v):
+            if not pa: continue
+            for two in (False, True):
+                bad, cnt = bad_union_value(r, p, key, two)
+                where = "".join({"f": "field", "i": "elem", "v": "mapval"}[s] + "." for (s, _) in pa).rstrip(".")
+                bv = replace_at(v, pa, bad)
+                emit("w", sname, st, bv, "bad-nested:union%s@%s" % (cnt, where)); emit("p", sname, st, bv, "bad-nested:union%s@%s" % (cnt, where))
+    # args / result structs of the service method (no entry in p.structs: oracle needs only "error")
+    for sname, mk in [(args_t, lambda b: ("(", {1: b, 2: ("n", 4)})), (res_t, lambda b: ("(", {0: b})),
+                      (res_t, lambda b: ("(", {1: ("(", {1: b, 2: ("q", b"m")})}))]:
+        for two in (False, True):
+            bad, cnt = bad_union_value(r, p, (f, "UnB"), two)
+            emit("w", sname, None, mk(bad), "bad-nested:union%s@%s" % (cnt, sname.split("_")[-1])); emit("p", sname, None, mk(bad), "bad-nested:union%s@%s" % (cnt, sname.split("_")[-1]))
 
 
 def add_defaults_struct(p):
